@@ -350,7 +350,9 @@ def f_shape_mismatch(it, g, pos, spell):
     else:
         if all(any(p[0] == "return" for p in (t.f.get("params") or [])) for t in _trait_instrs(it)):
             return None     # a quick return replaces the body: member names are not needed and the rule does not apply
-        if _has_kind(it, lambda k: not k.startswith("from")) and g.chance(0.4):
+        # (the rule is about instructions that render the variant: one with a quick return does not)
+        into_plain = any(not any(p_[0] == "return" for p_ in (t.f.get("params") or [])) and any(not k.startswith("from") for k in kinds_of(t.name)) for t in _trait_instrs(it))
+        if into_plain and g.chance(0.4):
             # an expression alone does not name the counterpart variant's field for the Into direction
             mi = g.pick(["into", "map"])      # applicable to every Into kind (through the fallback chain)
             v = Variant(f"Vm{g.mark()}", "tuple", [Field(None, "i32", [Instr(mi, "map", container=None, member=None, action=f"k{g.mark()}()", braced=True, spelling=spell)])],
